@@ -46,7 +46,7 @@ def run(ctx):
     found_input |= U.unit_differential_c05(ctx)
 
     exe = ctx.compile_harness([os.path.join(C01, "harness", "loop.cc")], "loop", libs=M.LIBS, test_includes=True)
-    specs = M.gen_specs(ctx.rng, ctx.tier) + f5_specs(ctx.rng, ctx.tier)
+    specs = M.gen_specs(ctx.rng, ctx.tier) + M.gen_specs_extra(ctx.rng, ctx.tier) + f5_specs(ctx.rng, ctx.tier)
     rc, out = M.execute(ctx, exe, specs)
     runs = M.parse_runs(out, specs)
     if rc != 0 or len(runs) != len(specs) or any(r.end is None for r in runs):
@@ -58,6 +58,9 @@ def run(ctx):
         s = run_.spec
         ctx.count("problem:%s/cut%d%s" % (s["problem"], s["cutmode"], "/tiny-stack" if s["stack"] < 1 else ""))
         ctx.count("slots:%d" % s["slots"])
+        ctx.count("track_order:" + M.TRACK_ORDERS[s.get("track_order", 0)])
+        if s.get("fixed_limit"):
+            ctx.count("fixed_step_limiter")
         ctx.count("capacity:%s" % ("ample" if s["capacity"] >= 4096 else "tight"))
         if run_.exc:
             ctx.count("run-threw:" + ("capacity" if "capacity" in run_.exc else "other"))
@@ -66,7 +69,7 @@ def run(ctx):
         viol, st = M.stream_check(run_)
         for k, v in st.items():
             tot[k] = max(tot.get(k, 0), v) if k == "max_disp_excess" else tot.get(k, 0) + v
-        key = (s["problem"], s["cutmode"], s["seed"], s["slots"], s["capacity"], s["stack"])
+        key = (s["problem"], s["cutmode"], s["seed"], s["slots"], s["capacity"], s["stack"], s.get("track_order", 0), s.get("fixed_limit", 0))
         ctx.case(key, nontrivial=st["pairs"] > 0)
         ctx.sample(dict(problem=s["problem"], cutmode=s["cutmode"], slots=s["slots"], capacity=s["capacity"],
                         stack_factor=s["stack"], primaries=len(s["prims"]), stats=st, threw=run_.exc))
@@ -81,8 +84,9 @@ def run(ctx):
                     continue
             found_input = True
             detail = dict(detail)
-            ctx.violation(kind, "%s [%s cut=%d slots=%d cap=%d stack_factor=%g seed=%d]" % (
-                what, s["problem"], s["cutmode"], s["slots"], s["capacity"], s["stack"], s["seed"]),
+            ctx.violation(kind, "%s [%s cut=%d slots=%d cap=%d stack_factor=%g seed=%d track_order=%s fixed_step_limiter=%g]" % (
+                what, s["problem"], s["cutmode"], s["slots"], s["capacity"], s["stack"], s["seed"],
+                M.TRACK_ORDERS[s.get("track_order", 0)], s.get("fixed_limit", 0.0)),
                 dict(spec=dict(s), harness_input=M.spec_line(s), detail=detail,
                      model="coq/Properties_C05.v C05_step_ge_displacement_refuted" if sig else None),
                 signature=sig)
